@@ -487,8 +487,7 @@ theorem C10_gen_defaults :
 deliberately blunt — the semantic ties of these functions are the differential rigs) -/
 theorem C10_gen_shape :
     Gen.Reward.updateIsWeightedLeftFold = true ∧ Gen.Reward.updateAgentsShape = true ∧
-    Gen.Reward.agentRewardPlumbing = true ∧ Gen.Reward.setupRewardSharingShape = true ∧
-    Gen.Reward.accessFromNestedDictShape = true := by
+    Gen.Reward.agentRewardPlumbing = true ∧ Gen.Reward.setupRewardSharingShape = true := by
   decide
 
 /-- the two graph functions of science.py are text-identical to the shapes Model/RewardGraph.lean transcribes (their semantic
